@@ -1242,12 +1242,42 @@ func RuleT1(c *Ctx) {
 	c.Saw(core.FnName(fn))
 	var hdr *core.CondEdge
 	loops := core.Loops(fn)
+	// the task bound: config.NbTasks itself (normalised in place), or a local that is NbTasks, replaced by NumCPU when <= 0
+	isRaw := func(v ssa.Value) bool { return strings.HasSuffix(core.PathOf(v), "config.NbTasks)") }
+	normLocal := map[ssa.Value]bool{}
+	isBound := func(v ssa.Value) bool {
+		if isRaw(v) {
+			return true
+		}
+		phi, ok := v.(*ssa.Phi)
+		if !ok || len(phi.Edges) != 2 {
+			return false
+		}
+		for i, e := range phi.Edges {
+			o := phi.Edges[1-i]
+			call, isCall := e.(*ssa.Call)
+			if !isCall || !core.IsFunc(core.Callee(call.Common()), "runtime", "NumCPU") || !isRaw(o) {
+				continue
+			}
+			// the NumCPU edge is taken exactly when the raw value is <= 0
+			pred := phi.Block().Preds[i]
+			for _, cd := range core.Conds(fn) {
+				if cd.X == o && (cd.Op == token.LEQ || cd.Op == token.LSS) {
+					if k, isK := core.ConstInt(cd.Y); isK && ((cd.Op == token.LEQ && k == 0) || (cd.Op == token.LSS && k == 1)) && cd.Block.Succs[0] == pred && len(pred.Preds) == 1 {
+						normLocal[v] = true
+						return true
+					}
+				}
+			}
+		}
+		return false
+	}
 	for _, cd := range core.Conds(fn) {
 		cd := cd
 		if cd.Op != token.LSS {
 			continue
 		}
-		if strings.HasSuffix(core.PathOf(cd.Y), "config.NbTasks)") {
+		if isBound(cd.Y) {
 			for _, l := range loops {
 				if l.Header == cd.Block {
 					if _, isPhi := cd.X.(*ssa.Phi); isPhi {
@@ -1308,7 +1338,7 @@ func RuleT1(c *Ctx) {
 				// unchanged: only on the edge where the recomputed nbChunks is already >= NbTasks (the loop then exits)
 				exits := false
 				if ifi, isIf := pred.Instrs[len(pred.Instrs)-1].(*ssa.If); isIf {
-					if cmp, isCmp := ifi.Cond.(*ssa.BinOp); isCmp && cmp.Op == token.LSS && cmp.X == nc && strings.HasSuffix(core.PathOf(cmp.Y), "config.NbTasks)") && pred.Succs[1] == hdr.Block {
+					if cmp, isCmp := ifi.Cond.(*ssa.BinOp); isCmp && cmp.Op == token.LSS && cmp.X == nc && isBound(cmp.Y) && pred.Succs[1] == hdr.Block {
 						exits = true
 					}
 				}
@@ -1323,7 +1353,7 @@ func RuleT1(c *Ctx) {
 		why = append(why, "no nbSplits variable starting at 1")
 	}
 	// normalisation NbTasks <= 0 -> NumCPU dominates the loop
-	norm := false
+	norm := normLocal[hdr.Y]
 	for _, cd := range core.Conds(fn) {
 		if strings.HasSuffix(core.PathOf(cd.X), "config.NbTasks)") {
 			if k, isK := core.ConstInt(cd.Y); isK && k == 0 && (cd.Op == token.LEQ || cd.Op == token.LSS) && cd.Block.Dominates(hdr.Block) {
@@ -1837,6 +1867,87 @@ func linNOf(v ssa.Value, sym ssa.Value, isN func(ssa.Value) bool, d int) linN {
 	}
 	if bo, isB := v.(*ssa.BinOp); isB {
 		x, y := linNOf(bo.X, sym, isN, d+1), linNOf(bo.Y, sym, isN, d+1)
+		if !x.ok || !y.ok {
+			return linN{}
+		}
+		switch bo.Op {
+		case token.ADD:
+			return linN{x.k + y.k, x.b + y.b, x.n + y.n, true}
+		case token.SUB:
+			return linN{x.k - y.k, x.b - y.b, x.n - y.n, true}
+		case token.MUL:
+			if x.k == 0 && x.n == 0 {
+				return linN{x.b * y.k, x.b * y.b, x.b * y.n, true}
+			}
+			if y.k == 0 && y.n == 0 {
+				return linN{y.b * x.k, y.b * x.b, y.b * x.n, true}
+			}
+		}
+	}
+	return linN{}
+}
+
+// RuleM11 — the table-based MSM visits every scalar position.
+func RuleM11(c *Ctx) {
+	c.Rule("M11", "full traversal of the fixed-base MSM: MSMPrecomp.MSM calls precompPoints[i].ScalarMul(scalars[i], …) inside one loop i = 0 .. len(scalars)-1, and an iteration skips the call only on the zero edge of scalars[i].IsZero(); any other partition of the positions (batches, ranges computed by division) cannot be shown complete by this rule and is reported")
+	fn := c.P.Fn("banderwagon", "MSMPrecomp", "MSM")
+	if fn == nil {
+		c.Unresolved("M11", "banderwagon.(*MSMPrecomp).MSM")
+		return
+	}
+	n := 0
+	for _, f := range core.Family(fn) {
+		cls := countedLoops(f)
+		for _, call := range callsTo(f, "/banderwagon", "PrecompPoint", "ScalarMul") {
+			n++
+			c.Saw(core.FnName(f))
+			key := fmt.Sprintf("MSM:ScalarMul@%s", c.relInFn(fn, call.Pos()))
+			cl := loopOf(cls, call.Block())
+			if cl == nil {
+				c.Und("M11", key, call.Pos(), "the table lookup is not inside a counted loop")
+				continue
+			}
+			z, isZ := core.ConstInt(cl.init)
+			x, isLen := core.IsLenOf(cl.bound)
+			whole := isZ && z == 0 && cl.step == 1 && cl.op == token.LSS && isLen && paramBehind(x) != nil && paramBehind(x).Name() == "scalars" && f == fn
+			if !whole {
+				c.Und("M11", key, call.Pos(), "the loop around the table lookup does not run i = 0 .. len(scalars)-1 in MSM itself (its range is "+core.PathOf(cl.init)+" .. "+core.PathOf(cl.bound)+"): that every coefficient takes part cannot be shown")
+				continue
+			}
+			// skipped only for zero scalars: within an iteration the latch cannot be reached without the call or the
+			// zero edge of scalars[i].IsZero()
+			cut := core.NewCuts()
+			cut.AddInstr(call)
+			for _, zc := range callsTo(f, "bandersnatch/fr", "Element", "IsZero") {
+				if ia, isIA := zc.Call.Args[0].(*ssa.IndexAddr); isIA && core.StripConv(ia.Index) == cl.phi && paramBehind(ia.X) != nil && paramBehind(ia.X).Name() == "scalars" {
+					cut = mergeCuts(cut, boolEdges(f, zc, true))
+				}
+			}
+			hdr := cl.loop.Header.Instrs[len(cl.loop.Header.Instrs)-1]
+			// can the header be re-entered (the next iteration started) without the call and without the zero edge?
+			skipped := core.ReachableAvoiding(f, hdr, cut, cl.loop.Header.Instrs[0])
+			c.Check(!skipped, "M11", key, call.Pos(), "an iteration can skip the table lookup although its scalar is not zero", "every position 0..len(scalars)-1, skipped only when scalars[i] is zero")
+		}
+	}
+	c.FloorN("M11", 1, n, "table lookups in MSM")
+}
+
+// linNLeaf is linNOf with caller-supplied leaves (loop variable, mirrored pointer, symbolic size).
+func linNLeaf(v ssa.Value, leaf func(ssa.Value) (linN, bool), d int) linN {
+	v = core.StripConv(v)
+	if d > 12 {
+		return linN{}
+	}
+	if l, ok := leaf(v); ok {
+		return l
+	}
+	if _, isC := v.(*ssa.Const); isC {
+		if k, isK := core.ConstInt(v); isK {
+			return linN{0, k, 0, true}
+		}
+	}
+	if bo, isB := v.(*ssa.BinOp); isB {
+		x, y := linNLeaf(bo.X, leaf, d+1), linNLeaf(bo.Y, leaf, d+1)
 		if !x.ok || !y.ok {
 			return linN{}
 		}
